@@ -109,8 +109,9 @@ inductive SmEvent where
   | {events}
   deriving DecidableEq, Repr, Inhabited
 
-/-- `StateMachine::process_event`: the transition table of the source (guards answered by `guard`) -/
-def smStep (guard : String → Bool) (s : SmState) (e : SmEvent) : Option SmState :=
+/-- `StateMachine::process_event`: the transition table of the source (guards answered by `guard`); the new state and the
+action of the transition, if any -/
+def smStep (guard : String → Bool) (s : SmState) (e : SmEvent) : Option (SmState × List String) :=
   match s, e with
 {rows}
   | _, _ => none
@@ -147,16 +148,31 @@ structure Env (E Es M : Type) where
   mpRoot : M → Option M                           -- `m.root(path)` (`None`: it returned `Err`)
   setRes : Except (Error Es) Nat                  -- `json::set_by_key(settings, path, payload)`
   guard : String → Bool := fun _ => false
-/-- the part of the client the handler reads and writes -/
-structure Cl (E Es M : Type) where
+/-- the part of the client the handler reads and writes; `log`: state-machine actions run and environment calls made
+(`update()`), in order; `ext`: whatever else the environment's functions thread through (settings, wire, clock) -/
+structure Cl (E Es M X : Type) where
   st : SmState
   pending : M
   acts : List (Act E Es) := []
+  log : List String := []
+  ext : X
 
-def processEvent {{E Es M : Type}} (env : Env E Es M) (self : Cl E Es M) (e : SmEvent) : Option Unit × Cl E Es M :=
+def processEvent {{E Es M X : Type}} (env : Env E Es M) (self : Cl E Es M X) (e : SmEvent) : Option Unit × Cl E Es M X :=
   match smStep env.guard self.st e with
-  | some s => (some (), {{ self with st := s }})
+  | some (s, as) => (some (), {{ self with st := s, log := self.log ++ as }})
   | none => (none, self)
+
+/-- the environment of one `update()` call: the link, the two start-up publications, and the client's own sub-procedures
+(`dump(None)`, `iter_list`, `iter_dump`, `poll`) as functions on the client part -/
+structure UEnv (E Es M X : Type) where
+  connected : Bool                                  -- `self.mqtt.client().is_connected()`
+  alive : Cl E Es M X → Cl E Es M X × Bool          -- `self.alive().is_ok()` (and what it put on the wire)
+  subscribe : Cl E Es M X → Cl E Es M X × Bool      -- `self.subscribe().is_ok()`
+  hasRt : M → Bool                                  -- `self.pending.response_topic.is_some()`
+  dumpNone : Cl E Es M X → Cl E Es M X              -- `self.dump(None).ok()`
+  iterList : Cl E Es M X → Cl E Es M X
+  iterDump : Cl E Es M X → Cl E Es M X
+  poll : Cl E Es M X → Cl E Es M X × Except Unit Ret
 '''
 
 
@@ -185,7 +201,8 @@ def generate(lib_rs):
         if ev not in events:
             events.append(ev)
         lhs = f"  | {'_' if s0 == '_' else '.' + s0}, .{ev} =>"
-        rows.append((s0 == "_", f"{lhs} " + (f'if guard "{g}" then some .{s1} else none' if g else f"some .{s1}")))
+        res = f'some (.{s1}, [{chr(34) + _act + chr(34) if _act else ""}])'
+        rows.append((s0 == "_", f"{lhs} " + (f'if guard "{g}" then {res} else none' if g else res)))
     rows = [r for w, r in rows if not w] + [r for w, r in rows if w]     # the wildcard row last, as smlang resolves it
     mcodes = re.search(r"enum ResponseCode \{([^}]*)\}", rs)
     codes = [c.strip() for c in mcodes.group(1).split(",") if c.strip()]
@@ -211,7 +228,7 @@ def generate(lib_rs):
         ("OptUnit", "unwrap"): {"kind": "unwrap"},
     }, consts={"prefix": "pfx"}, vartypes={"topic": "Str", "payload": "Str", "p": "Str", "prefix": "Str", "state": "StateM",
                                            "m": "Mp", "mp_err": "MpErr", "ser_err": "SerErr", "set_err": "SetErr"},
-        structs={"Self": "(Cl E Es M)"}, str_as_chars=True)
+        structs={"Self": "(Cl E Es M X)"}, str_as_chars=True)
     tb.effects = {
         ("call", "pub_get"): {"fmt": "(env.pubGet, {{ self with acts := self.acts ++ [Act.pubGet] }})", "pair": "self", "ret": "PubRes"},
         ("call", "Multipart::try_from"): {"fmt": "(env.mpTry, self)", "pair": "self", "ret": "ResMp"},
@@ -224,11 +241,67 @@ def generate(lib_rs):
     tb.deref_assign = {"pending": ("self", "{{ self with pending := {1} }}")}
     tb.quiet_macros = {"info", "warn", "error", "debug", "trace"}
     out += translate_fn(b, "poll_closure",
-                        "{E Es M : Type} (env : Env E Es M) (pfx : Str) (self : Cl E Es M) (topic payload : Str)",
+                        "{E Es M X : Type} (env : Env E Es M) (pfx : Str) (self : Cl E Es M X) (topic payload : Str)",
                         "Ret", tb, "panic", mut_self=True,
                         doc="the closure `MqttClient::poll` passes to `minimq`: one inbound message (`topic`, `payload`); the client "
                             "part `self` afterwards (protocol state, pending multipart request, what it asked the MQTT client to "
                             "send, in order) and what it reports to `update()`")
+    # ---- update(): the state dispatch
+    sig, text = M.find_fn(src, "update")
+    if re.sub(r"\s+", " ", sig) != "fn update(&mut self, settings: &mut Settings) -> Result<bool, Error<Stack::Error>>":
+        raise Unsupported(f"update(): signature {sig!r}")
+    ub = M.parse_block(text)
+    CONN = ("mcall", ("mcall", ("field", ("path", ["self"]), "mqtt"), "client", []), "is_connected", [])
+
+    def prep_update(e):
+        if isinstance(e, tuple):
+            if e == CONN:
+                return ("call", ("path", ["is_connected"]), [])
+            if e == ("field", ("path", ["self"]), "state"):
+                return ("path", ["state"])
+            if e == ("mcall", ("field", ("field", ("path", ["self"]), "pending"), "response_topic"), "is_some", []):
+                return ("call", ("path", ["has_response_topic"]), [])
+            if e and e[0] == "mcall" and e[1] == ("path", ["self"]) and e[2] in ("alive", "subscribe", "dump", "iter_list", "iter_dump", "poll"):
+                want = {"alive": [], "subscribe": [], "dump": [("path", ["None"])], "iter_list": [],
+                        "iter_dump": [("path", ["settings"])], "poll": [("path", ["settings"])]}[e[2]]
+                if e[3] != want:
+                    raise Unsupported(f"update(): self.{e[2]} called with {e[3]!r}")
+                return ("call", ("path", ["call_" + e[2]]), [])
+            return tuple(prep_update(x) for x in e)
+        if isinstance(e, list):
+            return [prep_update(x) for x in e]
+        return e
+    ub = prep_update(ub)
+    uctors = dict(ctors)
+    for st_ in states:
+        uctors[f"sm::States::{st_}"] = f"SmState.{st_}"
+    for ev_ in events:
+        uctors[f"sm::Events::{ev_}"] = f"SmEvent.{ev_}"
+    tb = Tables(self_type="Cl", ctors=uctors, fns={}, methods={
+        ("StateM", "state"): {"kind": "fmt", "fmt": "self.st", "ret": "SmState"},
+        ("OptUnit", "unwrap"): {"kind": "unwrap"},
+        ("OptUnit", "ok"): {"kind": "id"},
+        ("ClRes", "ok"): {"kind": "id"},
+        ("BoolRes", "is_ok"): {"kind": "id"},
+        ("PollRes", "map"): {"kind": "lamfmt", "fmt": "(Except.map {1} {0})"},
+    }, consts={}, vartypes={"state": "StateM", "c": "Ret"}, structs={"Self": "(Cl E Es M X)"})
+    tb.effects = {
+        ("call", "is_connected"): {"fmt": "(uenv.connected, self)", "pair": "self"},
+        ("call", "has_response_topic"): {"fmt": "(uenv.hasRt self.pending, self)", "pair": "self"},
+        ("mcall", "state", "process_event"): {"fmt": "(processEvent env self {0})", "pair": "self", "ret": "OptUnit"},
+        ("call", "call_alive"): {"fmt": "(let r := uenv.alive self; (r.2, r.1))", "pair": "self", "ret": "BoolRes"},
+        ("call", "call_subscribe"): {"fmt": "(let r := uenv.subscribe self; (r.2, r.1))", "pair": "self", "ret": "BoolRes"},
+        ("call", "call_dump"): {"fmt": "((), uenv.dumpNone self)", "pair": "self", "ret": "ClRes"},
+        ("call", "call_iter_list"): {"fmt": "((), uenv.iterList self)", "pair": "self", "ret": "ClRes"},
+        ("call", "call_iter_dump"): {"fmt": "((), uenv.iterDump self)", "pair": "self", "ret": "ClRes"},
+        ("call", "call_poll"): {"fmt": "(let r := uenv.poll self; (r.2, r.1))", "pair": "self", "ret": "PollRes"},
+    }
+    tb.quiet_macros = {"info", "warn", "error", "debug", "trace"}
+    out += translate_fn(ub, "update",
+                        "{E Es M X : Type} (env : Env E Es M) (uenv : UEnv E Es M X) (self : Cl E Es M X)",
+                        "Except Unit Bool", tb, "panic", mut_self=True,
+                        doc="`MqttClient::update`: reset when the link is down, one step of the protocol state machine (the "
+                            "`match self.state.state()`), then `poll()`; the result is `poll`'s, mapped to \"settings changed\"")
     out.append("end MiniconfVerif.Gen.Mqtt")
     return "\n".join(out) + "\n"
 
